@@ -16,6 +16,8 @@ package main
 
 import (
 	"encoding/json"
+	"flag"
+	"os/exec"
 	"fmt"
 	"math/rand"
 	"os"
@@ -38,6 +40,7 @@ import (
 var (
 	workdir  string
 	universe = c06.Universe()
+	dumpDir  = flag.String("dump", "", "replay only: copy what every run wrote (etc/haproxy) below this directory")
 )
 
 // input is one oracle case (also the replay format).
@@ -149,10 +152,19 @@ func runAll(c ocase, tag string) ([]string, int, error) {
 				r.ShuffleLists = i%2 == 1
 				r.Seed = int64(i)
 			}
-			res, err := c06.Exec(r, universe, false)
+			res, err := c06.Exec(r, universe, *dumpDir != "")
 			if err != nil {
 				errs[i] = err
 				return
+			}
+			if res.Pipeline != nil {
+				dst := filepath.Join(*dumpDir, fmt.Sprintf("%s%d", tag, i))
+				os.RemoveAll(dst)
+				os.MkdirAll(dst, 0o755)
+				exec.Command("cp", "-r", res.Pipeline.CfgDir(), dst).Run()
+				os.WriteFile(filepath.Join(dst, "canon.json"), []byte(res.Canon), 0o644)
+				os.WriteFile(filepath.Join(dst, "convlog.txt"), []byte(strings.Join(res.ConvLog, "\n")), 0o644)
+				res.Pipeline.Close()
 			}
 			canon[i] = res.Canon
 			lists[i] = res.Lists
@@ -253,6 +265,9 @@ func hostsOf(ing *networking.Ingress) []string {
 			out = append(out, h)
 		}
 	}
+	if ing.Spec.DefaultBackend != nil {
+		add("")
+	}
 	for _, r := range ing.Spec.Rules {
 		if r.HTTP != nil {
 			add(r.Host)
@@ -295,6 +310,31 @@ func classify(c ocase, diff []string) string {
 		for _, hs := range claims {
 			if len(hs) > 1 && (strings.Contains(text, "redirdest") || strings.Contains(text, "redirect prefix") || strings.Contains(text, "redir")) {
 				return "C06/redirect-from-duplicate"
+			}
+		}
+	}
+	// the same server alias requested by two hosts, or an alias that is also a hostname
+	for _, key := range []string{"server-alias", "server-alias-regex"} {
+		claims := map[string]map[string]bool{}
+		hostnames := map[string]bool{}
+		for _, o := range all {
+			if ing, ok := o.(*networking.Ingress); ok {
+				for _, h := range hostsOf(ing) {
+					hostnames[h] = true
+				}
+				if v, ok := annValue(ing, key); ok && v != "" {
+					if claims[v] == nil {
+						claims[v] = map[string]bool{}
+					}
+					for _, h := range hostsOf(ing) {
+						claims[v][h] = true
+					}
+				}
+			}
+		}
+		for v, hs := range claims {
+			if (len(hs) > 1 || hostnames[v]) && (strings.Contains(text, "alias") || strings.Contains(text, "\"backend\"") || strings.Contains(text, "hostbackend")) {
+				return "C06/server-alias-duplicate"
 			}
 		}
 	}
